@@ -172,6 +172,7 @@ CORE_CLASSES = {
     "C14": ["life", "faults", "mix"],
     "C15": ["faults", "post"],
     "C16": ["fds", "reuse", "faults", "ready"],
+    "C20": ["fds", "ready"],
 }
 
 
@@ -289,7 +290,7 @@ MODEL_CFGS = {
     "C03": ["reuse"], "C04": ["chan"], "C10": ["exec", "stream"], "C12": [],
     "C01": ["reuse", "edge"], "C02": ["edge", "post"], "C05": ["timers"], "C06": ["reuse", "post"],
     "C07": ["edge", "timers"], "C08": ["drop", "idle"], "C09": ["post", "life"], "C13": ["idle"],
-    "C14": ["life", "synth"], "C15": ["faults", "life"], "C16": ["edge", "reuse"],
+    "C14": ["life", "synth"], "C15": ["faults", "life"], "C16": ["edge", "reuse"], "C20": [],
 }
 
 
